@@ -13,11 +13,13 @@ import (
 
 	"verif/drv"
 	"verif/kit"
+	"verif/model"
 	"verif/refcar"
 )
 
 type C16Case struct {
-	Front  string      `json:"front"` // bs, st, st-stream, def-stream
+	Blocks []string    `json:"blocks,omitempty"` // default a, L300, b
+	Front  string      `json:"front"`            // bs, st, st-stream, def-stream
 	Opts   drv.Opts    `json:"opts"`
 	Faults []drv.Fault `json:"faults"`
 	Retry  bool        `json:"retry,omitempty"`
@@ -176,7 +178,11 @@ func c16Run(x *kit.Ctx, cs C16Case, check bool) (lens []int, callOfWrite []strin
 	callIdx := 0
 	laterFailed := false
 	var okBlocks []kit.Blk
-	for _, n := range c16Blocks {
+	blockNames := c16Blocks
+	if len(cs.Blocks) > 0 {
+		blockNames = cs.Blocks
+	}
+	for _, n := range blockNames {
 		b := kit.B(n)
 		attempts := 1
 		if cs.Retry {
@@ -207,7 +213,11 @@ func c16Run(x *kit.Ctx, cs C16Case, check bool) (lens []int, callOfWrite []strin
 				stored = true
 				okBlocks = append(okBlocks, b)
 			} else {
-				// the failed block is not reported as stored
+				// the failed block is not reported as stored (identity CIDs are always "present"
+				// unless they are stored explicitly: IdStore rule)
+				if model.IsIdentity(b.Raw) && !cs.Opts.StoreID {
+					continue
+				}
 				if has, herr, ok := w.Has(b); ok && herr == nil && has {
 					fail("failed-block-reported", "Put(%s) failed (%v) but Has reports the block", n, err)
 				}
@@ -295,16 +305,32 @@ func genC16(tier string, emit func(any)) {
 		front string
 		o     drv.Opts
 	}
+	// sessions whose index has several width buckets / hash codes (so that Finalize issues
+	// several bucket writes, any of which may fail)
+	multi := []cfg{{"bs", drv.Opts{Codec: "sorted"}}, {"st", drv.Opts{Codec: "sorted"}}, {"bs", drv.Opts{StoreID: true}}, {"st", drv.Opts{StoreID: true, Codec: "sorted"}}}
+	multiBlocks := []string{"a", "s", "i", "ia", "t"}
 	cfgs := []cfg{{"bs", drv.Opts{}}, {"bs", drv.Opts{DataPad: 3, IndexPad: 2, Codec: "sorted"}}, {"bs", drv.Opts{V1: true}}, {"st", drv.Opts{}}, {"st", drv.Opts{V1: true}}, {"st-stream", drv.Opts{}}, {"def-stream", drv.Opts{}}}
 	dir, err := os.MkdirTemp("/dev/shm", "c16gen")
 	if err != nil {
 		panic(err)
 	}
 	defer os.RemoveAll(dir)
+	type job struct {
+		cf     cfg
+		blocks []string
+	}
+	var jobs []job
 	for _, cf := range cfgs {
+		jobs = append(jobs, job{cf, nil})
+	}
+	for _, cf := range multi {
+		jobs = append(jobs, job{cf, multiBlocks})
+	}
+	for _, jb := range jobs {
+		cf := jb.cf
 		// learn the write sequence from a fault-free run
 		x := kit.ScratchCtx(dir)
-		lens, calls := c16Run(x, C16Case{Front: cf.front, Opts: cf.o}, false)
+		lens, calls := c16Run(x, C16Case{Front: cf.front, Opts: cf.o, Blocks: jb.blocks}, false)
 		class := func(k int) string {
 			// ordinal within its call
 			ord := 0
@@ -328,7 +354,7 @@ func genC16(tier string, emit func(any)) {
 					kind = "short"
 				}
 				for _, retry := range []bool{false, true} {
-					emit(C16Case{Front: cf.front, Opts: cf.o, Faults: []drv.Fault{{At: k, N: n}}, Retry: retry, Class: class(k) + ":" + kind})
+					emit(C16Case{Front: cf.front, Opts: cf.o, Blocks: jb.blocks, Faults: []drv.Fault{{At: k, N: n}}, Retry: retry, Class: class(k) + ":" + kind})
 				}
 			}
 		}
@@ -342,7 +368,7 @@ func genC16(tier string, emit func(any)) {
 								continue
 							}
 							for _, retry := range []bool{false, true} {
-								emit(C16Case{Front: cf.front, Opts: cf.o, Faults: []drv.Fault{{At: k1, N: n1}, {At: k2, N: n2}}, Retry: retry, Class: "two-faults:" + class(k1)})
+								emit(C16Case{Front: cf.front, Opts: cf.o, Blocks: jb.blocks, Faults: []drv.Fault{{At: k1, N: n1}, {At: k2, N: n2}}, Retry: retry, Class: "two-faults:" + class(k1)})
 							}
 						}
 					}
@@ -358,7 +384,7 @@ func init() {
 		Gen:    genC16,
 		Run:    runC16,
 		Decode: kit.DecodeAs[C16Case],
-		Rule: "session Open; Put a; Put L300; Put b; Finalize on {blockstore (file + write seam), storage ReadableWritable (file + write seam), storage streaming CARv1, deferred stream}: ONE transient fault injected at EVERY write call, as a plain error and as a short write of every length (quick: {0,1,2,mid,len-2,len-1} for writes > 64 bytes), " +
+		Rule: "sessions Open; Put a; Put L300; Put b; Finalize (and Put a, s, i, ia, t with the digest-only codec / StoreIdentityCIDs, so that the index has several buckets) on {blockstore (file + write seam), storage ReadableWritable (file + write seam), storage streaming CARv1, deferred stream}: ONE transient fault injected at EVERY write call, as a plain error and as a short write of every length (quick: {0,1,2,mid,len-2,len-1} for writes > 64 bytes), " +
 			"with continuation {carry on, retry the failed put}; thorough adds all ordered pairs of faults; oracle: error reported, failed block not reported stored, and if every later call succeeds the finalized archive strictly decodes to exactly the successfully put blocks; every case is non-trivial (one fault position)",
 		Bound: func(tier string) map[string]any {
 			if tier == "thorough" {
